@@ -324,7 +324,8 @@ static std::string do_sq(const std::vector<std::string> &t) {
   size_t n = cap;
   int st = q.call(buf.data(), &n);
   bool guard_ok = true;
-  for (size_t i = (st == PRIMITIV_C_OK ? need : 0) * q.es; i < buf.size(); ++i) if (buf[i] != 0x5a) guard_ok = false;
+  // after a success only the first min(need, cap) elements may have changed; after an error nothing
+  for (size_t i = (st == PRIMITIV_C_OK ? std::min(need, cap) : 0) * q.es; i < buf.size(); ++i) if (buf[i] != 0x5a) guard_ok = false;
   if (st == PRIMITIV_C_ERROR) return std::string("err ") + canon(c_message()) + (guard_ok ? "" : " BUFFER-TOUCHED");
   if (st != PRIMITIV_C_OK) return "status:" + std::to_string(st);
   bool eq = std::memcmp(buf.data(), want.data(), want.size()) == 0;
